@@ -273,12 +273,12 @@ macro_rules! assert_vfs_is_symlink {
             Ok(x) => x,
             _ => panic_msg!("assert_vfs_is_symlink!", "failed to get absolute path", $path),
         };
-        if $vfs.exists(&target) {
-            if !$vfs.is_symlink(&target) {
+        if !$vfs.is_symlink(&target) {
+            if $vfs.exists(&target) {
                 panic_msg!("assert_vfs_is_symlink!", "exists but is not a symlink", &target);
+            } else {
+                panic_msg!("assert_vfs_is_symlink!", "symlink doesn't exist", &target);
             }
-        } else {
-            panic_msg!("assert_vfs_is_symlink!", "symlink doesn't exist", &target);
         }
     };
 }
@@ -299,10 +299,8 @@ macro_rules! assert_vfs_no_symlink {
             Ok(x) => x,
             _ => panic_msg!("assert_vfs_no_symlink!", "failed to get absolute path", $path),
         };
-        if $vfs.exists(&target) {
-            if $vfs.is_symlink(&target) {
-                panic_msg!("assert_vfs_no_symlink!", "exists and is a symlink", &target);
-            }
+        if $vfs.is_symlink(&target) {
+            panic_msg!("assert_vfs_no_symlink!", "exists and is a symlink", &target);
         }
     };
 }
